@@ -677,11 +677,13 @@ Lemma fast_truncating_refuted_lemma :
        <> fst (step nl dflt (init_state nl dflt [] []) ins) 4.
 Proof.
   exists trunc_mux_nl, 0, trunc_mux_ins. split; [vm_compute; reflexivity|]. split.
-  - intros w Hw. unfold is_input, kind_of, trunc_mux_nl in Hw. cbn in Hw.
-    unfold width_of, trunc_mux_nl, trunc_mux_ins, inrange. cbn.
-    destruct (1 =? w) eqn:E1; [assert (w = 1) by lia; subst; cbn; lia|].
-    destruct (2 =? w) eqn:E2; [assert (w = 2) by lia; subst; cbn; lia|].
-    destruct (3 =? w) eqn:E3; [assert (w = 3) by lia; subst; cbn; lia|].
-    destruct (4 =? w) eqn:E4; discriminate Hw.
+  - intros w Hw.
+    destruct (Z.eq_dec w 1) as [->|N1]; [vm_compute; split; [discriminate|reflexivity]|].
+    destruct (Z.eq_dec w 2) as [->|N2]; [vm_compute; split; [discriminate|reflexivity]|].
+    destruct (Z.eq_dec w 3) as [->|N3]; [vm_compute; split; [discriminate|reflexivity]|].
+    exfalso. unfold is_input, kind_of, trunc_mux_nl in Hw. cbn [wires find_wire wname wkind] in Hw.
+    replace (1 =? w) with false in Hw by lia. replace (2 =? w) with false in Hw by lia.
+    replace (3 =? w) with false in Hw by lia.
+    destruct (4 =? w); discriminate Hw.
   - vm_compute. discriminate.
 Qed.
